@@ -249,6 +249,48 @@ def container_faults(ctx, base, index_offset):
     return len(faults)
 
 
+def csv_faults(ctx, base):
+    """Delimited text the csv layer itself gives up on - at every line, also the very first one - as data and as CID."""
+    import cutplace
+    from cutplace import errors, interface
+
+    data_lines = storage.delimited_text(BASE_DATA).split("\r\n")[:-1]
+    cid_lines = storage.delimited_text(base.rows).split("\r\n")[:-1]
+    damages = [("junk-after-closing-quote", '"q"x'), ("unterminated-quote", '"abc'), ("field-larger-than-the-csv-limit", "y" * 140000),
+               ("quote-inside-then-junk", 'a"b"c"'), ("nul-character", "a\x00b")]
+    for what, lines, loader in (("data", data_lines, None), ("cid", cid_lines, "cid")):
+        for k in range(len(lines)):
+            for kind, text in damages:
+                for single_line in (False, True):
+                    if single_line and k > 0:
+                        continue
+                    broken = list(lines)
+                    cells = broken[k].split(",")
+                    cells[min(1, len(cells) - 1)] = text
+                    broken[k] = ",".join(cells)
+                    if single_line:
+                        broken = broken[:1]
+                    path = os.path.join(base.dir, "csv_fault_%s.csv" % what)
+                    with open(path, "w", encoding="utf-8", newline="") as f:
+                        f.write("\r\n".join(broken) + ("" if single_line else "\r\n"))
+                    case = {"base": base.kind, "csv_fault": kind, "in": what, "line": k + 1, "single_line_file": single_line}
+                    ctx.case(case, True)
+                    ctx.count("csv-faults")
+                    try:
+                        if loader == "cid":
+                            interface.Cid(path)
+                        else:
+                            cid = interface.Cid()
+                            cid.read("<c10>", [list(r) for r in base.rows])
+                            for _ in cutplace.rows(cid, path, on_error="continue"):
+                                pass
+                    except (errors.DataError, errors.InterfaceError):
+                        pass
+                    except Exception as error:
+                        ctx.violation("C10:escape:csv-fault:%s:%s" % (what, classify_escape(error)), case,
+                                      "text the csv layer refuses ended in an internal error", expected="DataError / InterfaceError or success", observed=error)
+
+
 def run(ctx):
     ctx.floor("cid.loads", 1000)
     ctx.floor("data.reads", 300)
@@ -298,6 +340,8 @@ def run(ctx):
                         load_and_validate(ctx, base, rows, case, via_main=False)
         # ---- damaged containers (quick: delimited and fixed at every offset, archives sampled)
         index += container_faults(ctx, base, index)
+        if kind == "delimited" and ctx.mine(0):
+            csv_faults(ctx, base)
     ctx.exhaustive = True
     ctx.note("one-cell-at-a-time enumeration over the hostile pool is complete for all four base CIDs and their data in both tiers; thorough adds cell pairs and denser archive damage")
 
